@@ -41,7 +41,7 @@ var modPath = "github.com/openacid/low"
 // ------------------------------------------------------------------------------------------ configuration
 
 // packages loaded (module-internal dependencies and github.com/openacid/must are followed)
-var pkgNames = []string{"bitmap", "bmtree", "bitstr", "iohelper"}
+var pkgNames = []string{"bitmap", "bmtree", "bitstr", "bitword", "iohelper"}
 
 // the functions to translate (short names: module prefix stripped, methods as pkg.T.M)
 var targets = []string{
@@ -51,6 +51,7 @@ var targets = []string{
 	"bitstr.Len",
 	"bmtree.PathToIndex", "bmtree.PathToIndexLoose",
 	"bitmap.FromStr32", "bmtree.PathOf",
+	"bitmap.TailBitmap.Get", "bitmap.TailBitmap.Get1", "bitword.bitWord.Get",
 	"iohelper.SectionWriter.Seek", "iohelper.SectionWriter.Size",
 	// expected to be unsupported (loops): they document the bail-out
 	"bmtree.shiftMulti", "bmtree.IndexToPath", "bitmap.IndexRank64",
@@ -104,11 +105,19 @@ var records = map[string]*recordCfg{
 		coqType: "SectionWriter.sw", ctor: "SectionWriter.mkSW", fields: []string{"base", "off", "limit"},
 		getter: map[string]string{"base": "SectionWriter.base", "off": "SectionWriter.off", "limit": "SectionWriter.limit"},
 	},
+	"bitmap.TailBitmap": {
+		coqType: "TailBitmap.tb", ctor: "TailBitmap.mkTB", fields: []string{"Offset", "Words", "reclaimed"},
+		getter: map[string]string{"Offset": "TailBitmap.Offset", "Words": "TailBitmap.Words", "reclaimed": "TailBitmap.reclaimed"},
+	},
+	"bitword.bitWord": {
+		coqType: "Bitword.bitWord", ctor: "Bitword.Build_bitWord", fields: []string{"width", "byteCap", "wordMask"},
+		getter: map[string]string{"width": "Bitword.width", "byteCap": "Bitword.byteCap", "wordMask": "Bitword.wordMask"},
+	},
 }
 
 const preamble = `From Coq Require Import ZArith List Bool String.
 From Low Require Import Lib.MachInt Lib.Bits Lib.BitSeq Lib.TransLib.
-From Low Require Model.BmtreeIndex Model.SectionWriter.
+From Low Require Model.BmtreeIndex Model.SectionWriter Model.TailBitmap Model.Bitword.
 Import ListNotations.
 Open Scope Z_scope.
 `
